@@ -56,7 +56,10 @@ def gen_program(rng, counters):
             items.append(["@db 0 * @sizeof ", N(scope, loc)] if False else ["@assert 1 + 0 * ", N(scope, loc)])
             pos = "expr"
         elif pos in ("defl", "defn") and not have:
-            items.append([f"@{pos} ", N(scope, loc), f", {rng.randint(0, 200)}"])
+            # the value is a number, or an expression over a label defined only at the very end
+            # (so the definition stays an unevaluated expression while it is being used)
+            val = str(rng.randint(0, 200)) if rng.random() < 0.6 else f"zlast + {rng.randint(0, 9)}"
+            items.append([f"@{pos} ", N(scope, loc), f", {val}"])
             defined.append((scope, loc))
         elif pos in ("redefl", "redefn"):
             items.append([f"@{pos} ", N(scope, loc), ", ", N(scope, loc), " + 1"] if have and rng.random() < 0.5 else [f"@{pos} ", N(scope, loc), f", {rng.randint(0, 200)}"])
@@ -82,6 +85,7 @@ def gen_program(rng, counters):
     items.append(["  tb @sizeof ", N("Tail", "ta")])
     items.append(["@endstruct"])
     counters["sizeof"] += 1
+    items.append(["zlast:"])
     # make every referenced local exist somewhere at the end so that most programs link
     for sc, loc in set((i[1], i[2]) for it in items for i in it if isinstance(i, tuple) and i[0] == "N"):
         if (sc, loc) not in defined and not sc.startswith("S") and sc != "Tail":
@@ -125,6 +129,15 @@ def run(tier, seed):
         ("@defl .x, 1\n", None),
         ("@undef .x\n", None),
         ("@db @isdef .x\n", None),
+        # a struct before the first global label must leave "no global label yet" in force
+        ("@struct S\n f 1\n g 1\n@endstruct\n@db .g\n", None),
+        ("@struct S\n f 1\n@endstruct\n.f:\n", None),
+        ("@struct S\n f 1\n@endstruct\n@defl .f, 1\n", None),
+        ("@struct S\n f 1\n@endstruct\n@db @isdef .f\n", None),
+        ("@struct S\n f 1\n@endstruct\n@db @sizeof .f\n", None),
+        ("@struct S\n f 1\n@endstruct\n@undef .f\n", None),
+        ("@struct S\n f 1\n@endstruct\n@struct T\n h 1\n@endstruct\n@db .h\n", None),
+        ("@macro M, 0\n@db .q\n@endmacro\nM\n", None),
         ("a1:\n.x:\n@db 1\nb1:\n.x:\n@db 2\n@dw a1.x, b1.x\n", "a1:\na1.x:\n@db 1\nb1:\nb1.x:\n@db 2\n@dw a1.x, b1.x\n"),
         ("g1:\n@struct S\n f @db\n@endstruct\n.x:\n@dw .x\n", "g1:\n@struct S\n f @db\n@endstruct\ng1.x:\n@dw g1.x\n"),
     ]
